@@ -224,6 +224,13 @@ func c02Histories(tier string) [][]ops.Op {
 		{K: "Call", S: "issue", A: 0, V: 1000}, M, M, {K: "R", A: 0},
 		{K: "Call", S: "sentinel-deposit-qsr", A: 5, V: 100}, {K: "Call", S: "undelegate", A: 0}, M, M, M,
 	})
+	// state read through the acknowledged momentum changes between that momentum and the frontier: user 1 cancels its own
+	// genesis fusion (its fused plasma disappears with the momentum that confirms the contract receive) and afterwards sends
+	// blocks that acknowledge the momentum before; same for a delegation change followed by old-acknowledging blocks
+	hs = append(hs, []ops.Op{
+		M, {K: "CancelGenesisFuse", A: 1}, M, M, {K: "Told", A: 1, B: 2, V: 4}, M,
+		{K: "Call", S: "delegate", A: 0, B: 2}, M, {K: "Told", A: 0, B: 1, V: 2}, M, M,
+	})
 	// enumerated: every sequence of d operations from the alphabet, each followed by the confirming momentums
 	alpha := []ops.Op{
 		{K: "T", A: 0, B: 1, V: 5},
@@ -307,7 +314,7 @@ func c02Units(tier string) [][3]int {
 	var u [][3]int
 	for hi := range c02Histories(tier) {
 		parts := 1
-		if hi < 3 {
+		if hi < 4 {
 			parts = 4
 		}
 		for p := 0; p < parts; p++ {
